@@ -28,7 +28,7 @@ ASSUMPTIONS = ["exception classes are compared by subclass relation (e.g. IndexE
                "assigned values of another dtype are small non-negative integers so the cast is defined",
                "a result that is a memmap or based on one is reported without touching its memory"]
 EXHAUSTIVE = None
-MUST_HIT = ['idx:npint', 'idx:mask', 'idx:fullmask', 'idx:intarr', 'idx:none', 'idx:ell', 'idx:int-out-of-range', 'failed-write', 'failed-read',
+MUST_HIT = ['mode:r/ctx:r+', 'mode:r+/ctx:r+', 'iter:close', 'iter:drop', 'iter:exhaust', 'idx:npint', 'idx:mask', 'idx:fullmask', 'idx:intarr', 'idx:none', 'idx:ell', 'idx:int-out-of-range', 'failed-write', 'failed-read',
             'empty-array', 'ctx:none', 'ctx:open', 'ctx:nested', 'write:otherdt', 'write:row', 'idx:badtype', 'idx:too-many',
             'write:mask']
 
@@ -91,8 +91,15 @@ def st_case(draw):
         if w == 'set':
             a['val'] = {'k': draw(st.sampled_from(['scalar', 'row', 'otherdt', 'full', 'wrongshape', 'unconv'])), 's': draw(st.integers(0, 2 ** 31))}
         acc.append(a)
+    ctxm = draw(st.sampled_from(['none', 'open', 'nested']))
+    # 'r+' handle with default contexts, or a read-only handle whose (documented) per-block override makes writes legal
+    mode, cmode = draw(st.sampled_from([('r+', None), ('r+', None), ('r+', 'r+'), ('r', 'r+')]))
+    if ctxm == 'none' and mode == 'r':
+        mode = 'r+'
+    if draw(st.booleans()):
+        acc.insert(draw(st.integers(0, len(acc))), {'k': 'iterclose', 'how': draw(st.sampled_from(['close', 'drop', 'exhaust']))})
     return {'dt': draw(gens.st_dt()), 'shape': shape, 'seed': draw(st.integers(0, 2 ** 31)), 'acc': acc,
-            'ctx': draw(st.sampled_from(['none', 'open', 'nested'])), 'mode': 'r+'}
+            'ctx': ctxm, 'mode': mode, 'cmode': cmode}
 
 
 def build_idx(ix, shape):
@@ -154,7 +161,7 @@ def execute(ctx, spec):
     out = Outcome()
     dt = dt_of(spec['dt'])
     shape = tuple(spec['shape'])
-    out.cls('ctx:' + spec['ctx'])
+    out.cls('ctx:' + spec['ctx'], f"mode:{spec['mode']}/ctx:{spec.get('cmode')}")
     if shape[0] == 0:
         out.cls('empty-array')
     nontriv = False
@@ -174,6 +181,28 @@ def execute(ctx, spec):
 
         def one(acc, inside):
             nonlocal nontriv
+            if acc['k'] == 'iterclose':
+                # an iterchunks iterator that is closed / abandoned / exhausted must not leave the data file open either
+                out.cls('iter:' + acc['how'])
+                if shape[0] == 0:
+                    return True
+                it = a.iterchunks(chunklen=1)
+                first = next(it)
+                if first.tobytes() != ref[0:1].tobytes():
+                    out.viol('read-mismatch', 'iterchunks', 'first chunk differs')
+                    return False
+                if acc['how'] == 'close':
+                    it.close()
+                elif acc['how'] == 'drop':
+                    del it
+                    import gc
+                    gc.collect()
+                else:
+                    for _ in it:
+                        pass
+                if not inside and leaks('iterchunks:' + acc['how']):
+                    return False
+                return True
             idx = build_idx(acc['idx'], shape)
             idx_classes(acc['idx'], shape, out)
             if not trivial_index(acc['idx'], shape):
@@ -281,14 +310,14 @@ def execute(ctx, spec):
                     if not one(acc, False):
                         break
             elif spec['ctx'] == 'open':
-                with a.open_array():
+                with a.open_array(accessmode=spec.get('cmode')):
                     for acc in spec['acc']:
                         if not one(acc, True):
                             break
             else:
                 half = len(spec['acc']) // 2
                 ok = True
-                with a.open_array():
+                with a.open_array(accessmode=spec.get('cmode')):
                     with a.open_array():
                         for acc in spec['acc'][:half]:
                             ok = ok and one(acc, True)
@@ -324,6 +353,9 @@ def fixed_specs():
                            {'k': 'set', 'idx': c, 'val': {'k': 'otherdt', 's': 6}}, {'k': 'get', 'idx': {'t': 'tuple', 'v': [c, {'t': 'ell'}]}},
                            {'k': 'set', 'idx': c, 'val': {'k': 'wrongshape', 's': 7}}]
                     yield {'dt': {'t': t, 'bo': bo}, 'shape': shape, 'seed': 11, 'acc': acc, 'ctx': ctxm, 'mode': 'r+'}
+                    if ctxm != 'none' and c['t'] in ('int', 'slice', 'mask'):
+                        yield {'dt': {'t': t, 'bo': bo}, 'shape': shape, 'seed': 11, 'acc': [{'k': 'iterclose', 'how': 'close'}] + acc,
+                               'ctx': ctxm, 'mode': 'r', 'cmode': 'r+'}
 
 
 def task_fixed(ctx, col, shard):
